@@ -46,3 +46,26 @@ Proof.
   - intros H w Hw. exact (Qc_none_complete idx M d eta alphabet fuel H w Hw).
 Qed.
 Print Assumptions C14_rational_instance.
+
+(* Minimisation (Simple.min = forward conjugate, then backward conjugate), in matrix form over any
+   commutative semiring (model/Conjugate.v): a matrix F that intertwines two automata (alpha = alpha' F,
+   F M_a = M'_a F, omega' = F omega) makes them equivalent on every word; likewise backwards; hence the
+   automaton returned by min is equivalent to its input whenever the two change-of-basis matrices satisfy
+   the intertwining identities the code relies on.  The concrete conjugate (start P, F M P, F stop) with
+   F P F = F, alpha in the row space of F and the row space closed under every M_a satisfies them. *)
+From GV.model Require Import Conjugate.
+From GV.proofs Require ConjugateProofs.
+Theorem C14_conjugates_are_equivalent : forall (S : SR) (F G : nat -> nat -> S) (A B C : mauto S),
+  intertwines F A B -> intertwines_back G B C -> forall w, mweight A w = mweight C w.
+Proof. intros; eapply ConjugateProofs.min_equivalent; eassumption. Qed.
+Print Assumptions C14_conjugates_are_equivalent.
+
+Theorem C14_forward_conjugate : forall (S : SR) (A : mauto S) (dimB : list nat) (F P : nat -> nat -> S)
+    (c : nat -> S) (Nm : nat -> nat -> nat -> S),
+  ConjugateProofs.FPF S A dimB F P ->
+  (forall j, In j (dim A) -> mstart A j = bsum dimB (fun i => smul (c i) (F i j))) ->
+  (forall a i j, In i dimB -> In j (dim A) ->
+     bsum (dim A) (fun k => smul (F i k) (marc A a k j)) = bsum dimB (fun n => smul (Nm a i n) (F n j))) ->
+  forall w, mweight A w = mweight (conj dimB F P A) w.
+Proof. intros; eapply ConjugateProofs.conj_equivalent_pinv; eassumption. Qed.
+Print Assumptions C14_forward_conjugate.
